@@ -254,6 +254,11 @@ def atoi (s : Bytes) : Int :=
   let v := (s.takeWhile isDigitC).foldl (fun (a : Int) (d : Nat) => a * 10 + ((d : Int) - 48)) 0
   if neg then -v else v
 
+/-- `NUMMAX` of ex.c: numbers in addresses saturate here -/
+def NUMMAX : Int := 536870912
+/-- `ex_atoi`: `atoi` that saturates instead of wrapping around -/
+def exAtoi (s : Bytes) : Int := max (-NUMMAX) (min (atoi s) NUMMAX)
+
 /-- `re_read(&src)`: (pattern or NULL, rest) -/
 def reRead (src : Bytes) : Option Bytes × Bytes :=
   match src with
@@ -325,7 +330,7 @@ def exLineno (ed : Ed) (loc : Bytes) : R (Int × Bytes) :=
       match exSearch ed loc with
       | none => none
       | some ((n, rest), ed) => if n < 0 then some ((-1000000, rest), ed) else some ((n, rest), ed)
-    else if isDigitC c then some ((atoi loc - 1, loc.dropWhile isDigitC), ed)
+    else if isDigitC c then some ((exAtoi loc - 1, loc.dropWhile isDigitC), ed)
     else some ((ed.xrow, loc), ed)
   match base with
   | none => none
@@ -334,7 +339,7 @@ def exLineno (ed : Ed) (loc : Bytes) : R (Int × Bytes) :=
     let rec offs : Nat → Int → Bytes → Int × Bytes
       | 0, n, s => (n, s)
       | f + 1, n, s =>
-        if s.headD 0 == 45 || s.headD 0 == 43 then offs f (n + atoi s) ((s.drop 1).dropWhile isDigitC) else (n, s)
+        if s.headD 0 == 45 || s.headD 0 == 43 then offs f (max (-NUMMAX) (min (n + exAtoi s) NUMMAX)) ((s.drop 1).dropWhile isDigitC) else (n, s)
     let (n, rest) := offs (rest.length + 1) n rest
     some ((n, rest), ed)
 
